@@ -144,7 +144,7 @@ Lemma cem_contribs_deep af pp j :
 Proof.
   unfold cem_contribs. cbv zeta. rewrite map_flat_map, qsum_flat_map.
   replace (cnt 1 (fst pp) + 1)%nat with (S (cnt 1 (fst pp))) by lia. rewrite seq0_S. cbn [map]. rewrite qsum_cons.
-  rewrite qsum_zero.
+  rewrite (qsum_zero _ (map S (seq 0 (cnt 1 (fst pp))))).
   - cbn [seq map Nat.add fst snd Nat.sub]. rewrite qsum_cons, qsum_nil. rewrite Nat.add_0_r.
     destruct (af =? j)%nat; [|ring]. rewrite binpmf_zero, binpmf_00. cbn [Nat.eqb]. ring.
   - intros e He. apply in_map_iff in He. destruct He as (e' & <- & _). rewrite map_map. cbn [fst snd].
